@@ -10,10 +10,10 @@ CHECKS = {
          "Every character of every generated stream goes through the real emulation under a panic monitor; worker deaths (abort, stack overflow) are attributed to the single case in BEGIN state. The complete CSI table (63 finals x 8 intermediates x <=2 boundary parameters) x 8 state prefixes x 4 screens and ESC/lead-in + every byte for all 10 emulations are enumerated; longer histories are sampled. Held = no panic/abort on any observed execution.",
          "Characters are the 256 byte values. Resource exhaustion (work budget, allocation refusal, nesting) is C03's verdict, not C01's. Coverage beyond the enumerated table is sampling.", "DESIGN.md §4 C01"),
  "C02": ("panic/abort monitor at the loader boundaries (catch_unwind + panic hook + supervised worker processes with write-ahead journal and death attribution) over a corpus derived from the engine's own writers: dense truncations, per-byte corruption tables, cross-extension loading, structure-aware mutation; debug-assertion UB precondition checks observed as aborts",
-         "Each case is one call of Buffer::from_bytes / SauceData::extract / BitFont::from_bytes / TheDrawFont::from_tdf_bytes / Palette::load_palette / import_palette on the real code. Seeds are the output of every writer (14 formats, with and without SAUCE/comments, compressed and raw) plus fonts and palettes; every prefix length (dense near header and tail), every byte of the first 160 and last 140 bytes x 7 replacement values, every seed under 27 extensions, SAUCE tails built from field extremes, IcyDraw chunk payloads mutated below a valid CRC, little-endian field extremes, splices, inserts, deletes and random bytes. Held = no panic, abort or worker death on any observed case.",
+         "Each case is one call of Buffer::from_bytes / SauceData::extract / BitFont::from_bytes / TheDrawFont::from_tdf_bytes / Palette::load_palette / import_palette on the real code. Seeds are the output of every writer (14 formats, with and without SAUCE/comments, compressed and raw) plus fonts and palettes; every prefix length (dense near header and tail), every byte of the first 160 and last 140 bytes x 7 replacement values, every seed under 27 extensions, SAUCE tails built from field extremes, IcyDraw chunk payloads mutated below a valid CRC, little-endian field extremes, splices, inserts, deletes and random bytes. Held = no panic, abort or worker death on any observed case. The corpus contains files of every loader's own writer (ADF/IDF from ice-mode 80-column documents, ATASCII, a hand-made PETSCII file); every decimal number written in a seed is replaced by 14 extremes up to 2^64-1 (text-number class). A violation about to be shrunk is journalled first, so a worker death during shrinking cannot lose it.",
          "Resource exhaustion (allocation refusal, work budget) is C03's verdict. PaletteFormat::Ase import is todo!() in the engine and listed as a known finding. Coverage beyond the enumerated tables is sampling.", "DESIGN.md §4 C02"),
  "C03": ("logical work counter (cfg hook ticks), counting global allocator, nesting guard and per-run CPU clock as runtime monitors; absolute-bound oracle plus metamorphic saturation oracle over parameter magnitudes; worker-death attribution for allocation refusal / stack overflow / CPU hang",
-         "Each template (complete CSI table with numeric slots, macro/sixel/font/margin families) is executed on the real engine with every slot at W*H+1, 2^16, 10^6 and 2^31-1. The monitors decide on deterministic counts (ticks, bytes requested, nesting depth), not wall-clock: ticks <= 16(n+1)WH*max(W,H), peak allocation <= 64MiB+4096n, nesting <= 32, and no growth beyond 2x between magnitudes >= 2^16. The CSI table is complete for parameter vectors of length <= 3 in quick and <= 6 in thorough.",
+         "Each template (complete CSI table with numeric slots, macro/sixel/font/margin families) is executed on the real engine with every slot at W*H+1, 2^16, 10^6 and 2^31-1. The monitors decide on deterministic counts (ticks, bytes requested, nesting depth), not wall-clock: ticks <= 16(n+1)WH*max(W,H), peak allocation <= 64MiB+4096n, nesting <= 32, and no growth beyond 2x between magnitudes >= 2^16. The CSI table is complete for parameter vectors of length <= 3 in quick and <= 6 in thorough. The CSI table also runs as the content of an .ans file (a file buffer does not clamp the cursor to a screen), and every decimal number of the text seeds of the loader corpus is a numeric slot (file-number class).",
          "One tick per cell/pixel/glyph operation at the hook sites; loops without a tick are only seen by the 2 s CPU clock and the 60 s supervisor watchdog. Bounds are generous constants chosen by the harness; macro replay (65536 chars) and sixel (2048 px) limits of the engine are treated as fixed constants.", "DESIGN.md §4 C03"),
  "C04": ("write->parse differential on the real ANSI writer and parser with an observational per-cell oracle (glyph bitmap, displayed foreground/background where the glyph has such pixels, blink), cycling through all 2304 option configurations x 3 ice modes, violations shrunk over options and cells",
          "Every boolean save option combination (2^8) x 3 screen preparations x 3 control-character modes is exercised with generated buffers (24 per configuration in quick, 300 in thorough) whose rows are shaped for the substitutions (runs, blank runs on black / colour / blinking, rows ending at the margin, empty and full rows) and whose cells cover CP437 incl. NUL/0xFF/control codes, DOS/xterm/RGB colours and all attributes. The loaded buffer must show the same picture in every cell.",
@@ -25,22 +25,22 @@ CHECKS = {
          "All rows of width 1..=7 over 3 chars x 3 attributes x 2 font pages (6.1e8 rows, thorough; widths 1..=6 in quick) and width 1..=10 over a 2x2 alphabet are saved compressed and decoded by an independent decoder that enforces run length 1..=64, no run across a row boundary, exact row width and no trailing bytes; decoded bytes must equal the source incl. the font-page bit; the engine's loader must give the same cells for compressed and uncompressed output. Random buffers up to 200x30 add long runs around the 64-cell limit.",
          "Rows are independent in this format, which is what makes packing many rows into one buffer an exhaustive enumeration of row neighbourhoods.", "DESIGN.md §4 C06"),
  "C07": ("write->read differential on the real IcyDraw (.icy) writer and loader with a field-by-field comparator over generated documents (runtime round-trip monitor), violations shrunk over layers, cells and fonts",
-         "Documents with 1..=6 layers of every flag combination, mode, colour tag, offset (negative too), size incl. 0 and > 255, Unicode and 300-character titles, short- and long-form cells incl. characters above 0xFFFF, colours above 255 and the transparent colour, palettes of 1..=300 colours, font slots up to 300 with built-in and custom glyphs, with and without SAUCE are saved and loaded; size, modes, every layer property, every cell inside the layer size, palette, every font slot and the SAUCE fields must come back. Loader robustness on mutated chunk streams is C02/C03's matter.",
+         "Documents with 1..=6 layers of every flag combination, mode, colour tag, offset (negative too), size incl. 0 and > 255, Unicode and 300-character titles, short- and long-form cells incl. characters above 0xFFFF, colours above 255 and the transparent colour, palettes of 1..=300 colours, font slots up to 300 with built-in and custom glyphs, with and without SAUCE are saved and loaded; size, modes, every layer property, every cell inside the layer size, palette, every font slot and the SAUCE fields must come back. Loader robustness on mutated chunk streams is C02/C03's matter. Palettes include prefixes, copies, extensions and one-colour variations of the stock DOS palette; slot 0 also holds built-in pages whose names exceed the SAUCE font field, with SAUCE.",
          "Sizes stay mostly below 40x20 because every save PNG-encodes a preview. Invisible cells are compared as invisible only.", "DESIGN.md §4 C07"),
  "C08": ("recorded operation histories on the real EditState checked against snapshots taken at every operation boundary (history + snapshot model): full undo walk, full redo walk, random undo/redo walk and redo-discard check, exhaustive short histories plus seeded long ones, violations shrunk by delta debugging over operations and layers",
-         "After every operation that returns Ok the harness records (undo stack length, snapshot of size, modes, palette, fonts, SAUCE and per layer position, properties, size, offset and every cell get_char shows). Undo must return Ok, never panic and bring back, at every stack length that is an operation boundary, the snapshot of that boundary; redo likewise up to the final state; both rounds are run twice; a random walk over undo/redo revisits the boundaries; a new edit after an undo must empty the redo history. All histories of length <=2 over a 67-operation instantiated alphabet on 3 documents are enumerated (length 3: complete in thorough, 20000 sampled in quick) plus 30k (quick) / 400k (thorough) random histories of up to 40 operations on 1..=3-layer documents with alpha, offset, hidden and locked layers.",
+         "After every operation that returns Ok the harness records (undo stack length, snapshot of size, modes, palette, fonts, SAUCE and per layer position, properties, size, offset and every cell get_char shows). Undo must return Ok, never panic and bring back, at every stack length that is an operation boundary, the snapshot of that boundary; redo likewise up to the final state; both rounds are run twice; a random walk over undo/redo revisits the boundaries; a new edit after an undo must empty the redo history. All histories of length <=2 over a 67-operation instantiated alphabet on 3 documents are enumerated (length 3: complete in thorough, 20000 sampled in quick) plus 30k (quick) / 400k (thorough) random histories of up to 40 operations on 1..=3-layer documents with alpha, offset, hidden and locked layers. The alphabet (67 instantiated operations) includes the font-table, palette-replacement, SAUCE, layer-property, floating-layer and sixel-paste operations; documents come in every font / ice / palette mode with up to three fonts, bright backgrounds and blinking cells.",
          "Selection, caret and current layer are editor state, not document state. Cells hidden by a smaller layer size are compared when an undo makes them visible again. An operation that panics or returns Err ends the history before it (counted in the evidence; C08 speaks about operations that report success).", "DESIGN.md §4 C08"),
  "C12": ("render differential on the real renderer: Buffer::render_to_rgba of a document and of ColorOptimizer::optimize(document) compared byte for byte, first differing pixel mapped back to its cell (runtime observational oracle)",
          "Documents of 1..=4 layers whose font slot 0 cycles through every built-in font page 0..=42 and every SAUCE font, cells over all 256 glyphs with the blank glyphs and the solid block over-represented, DOS and RGB colours, bold, both whitespace settings; every (font page, glyph) pair is rendered at least once in thorough.",
          "The rendered picture (blink off) is the definition of 'looks the same'.", "DESIGN.md §4 C12"),
  "C13": ("metamorphic runtime monitor on the real compositor Buffer::get_char: six stacking laws checked at every position of the bounding box plus border before and after an invisible transformation, and a 15-line reference compositor on the fragment without modes/transparent colours/overlay",
-         "Stacks of 1..=5 layers with every combination of mode, alpha, visibility, offset and sparse content incl. transparent-colour half blocks and an optional overlay; laws L1 (empty alpha layer insertion), L2 (hidden layer content), L3 (translation), L4 (opaque layer hides everything below, including under its own transparent-colour cells), L5 (moving a layer changes only covered positions), L6 (reference compositor).",
+         "Stacks of 1..=5 layers with every combination of mode, alpha, visibility, offset and sparse content incl. transparent-colour half blocks and an optional overlay; laws L1 (empty alpha layer insertion), L2 (hidden layer content), L3 (translation), L4 (opaque layer hides everything below, including under its own transparent-colour cells), L5 (moving a layer changes only covered positions), L6 (reference compositor). L7 (topmost cell supplies glyph and own colours with transparent-colour cells), L8 (invisible cells of alpha layers carrying a payload), L9 (the half of a lower half-block cell behind the topmost cell's solid half never shows), L10 (glyphs stored in attributes-mode layers are irrelevant).",
          "Invisible results are compared as invisible only.", "DESIGN.md §4 C13"),
  "C09": ("runtime invariant assertion after every print_char (cursor inside visible window, fixed 40x24 grid), exhaustive <=3-token sequences + seeded streams, violations shrunk by delta debugging",
          "The geometry invariant is evaluated after every character of every stream. All <=2-token sequences over a ~230-token alphabet and (thorough) all 3-token sequences over the 70-token core alphabet x 5 sizes x {fresh, scrollback} are enumerated; byte pairs for the non-CSI emulations; random streams up to 4 KiB.",
          "Streams are not checked after their first ResizeTerminal action. Streams ending in a panic are C01's matter.", "DESIGN.md §4 C09"),
  "C20": ("panic/abort monitor + per-command pixel work budget (cfg hook ticks) + virtual blocking monitor (hook before the sleep) + picture-size assertion after every command, enumerated command tables and seeded streams for RIPscrip and IGS",
-         "Every RIP level-0/1/9 command x parameter length 0..=24 x {0,1,Z} and every string over {0,1,Z} up to length 6, every IGS command x 0..=12 parameters x 7 value classes are enumerated; random mixed / truncated / over-long streams with state prefixes, loops and chains are sampled. Each command may spend at most 16x the canvas size in pixel operations; get_picture_data() must return width*height*4 bytes after every command; any sleep request raises.",
+         "Every RIP level-0/1/9 command x parameter length 0..=24 x {0,1,Z} and every string over {0,1,Z} up to length 6, every IGS command x 0..=12 parameters x 7 value classes are enumerated; random mixed / truncated / over-long streams with state prefixes, loops and chains are sampled. Each command may spend at most 16x the canvas size in pixel operations; get_picture_data() must return width*height*4 bytes after every command; any sleep request raises. Every RIP command also runs with in-range coordinates on six viewports (offset, windowed, tiny) followed by a flood fill; the IGS drawing probe contains every state-dependent shape.",
          "RIP file commands run against an empty scratch directory. Known unimplemented feature (button label orientations, todo!()) is listed in known_findings.json.", "DESIGN.md §4 C20"),
  "C10": ("raw-bits runtime monitor over every stored char / String after each case (volatile u32 reads, str::from_utf8), debug-assertion UB precondition aborts observed via worker-death attribution, and the Miri interpreter on the unchecked-conversion sites (thorough)",
          "Every value of the quantifier's finite parts is executed on the real code: DECFRA fill character 0..=0x110010 (thorough: every value, quick: every 4th plus all surrogates and boundaries and 2^k+-1), all 65536 clipboard cell values, IcyDraw long-form cells with all 2048 surrogates / boundaries / random u32 in first and continuation chunks, invalid-UTF-8 titles and font names, glyph counts up to 2^17, all 256x256 hex-macro pairs. After each case every char the engine stores or returns is range-checked from its raw bits. Thorough also runs 6 Miri workloads (fill, hexmacro, clipboard, font, xbin transmute, icy) which report invalid-value construction even if the value is never read.",
@@ -49,7 +49,7 @@ CHECKS = {
          "For each of the ten SAUCE-writing formats, documents with generated metadata of every field length, 0..=255 comments and widths up to 1000 are saved and (a) parsed by a reference reader, (b) loaded and compared with what the variant can carry; the exactness of the cut is checked by sauce_header_len == trailer length and cell equality of content vs content+trailer, including look-alike markers, empty and 127/128/129-byte contents, and foreign (reference-written, NUL-padded, EOF-less) trailers.",
          "Ice flag and font name carried by a file are those of the document (ice mode, font 0 name).", "DESIGN.md §4 C11"),
  "C14": ("recorded event log of harness-controlled decode completions (gate hook) checked offline against a sequential model; direct assertions on decoder output; Miri data-race/UB detection with 16 scheduler seeds (thorough)",
-         "Schedules: for k<=4 images in flight all k! completion orders x all 2^k poll placements x 14 geometry classes (6188 schedules) are executed with real threads held in the gate; every poll runs on a helper thread while every decoder it could wait for is held by the harness (not returning within 6 s = blocked); the log of what is on screen after each step is checked against 'fold arrivals in order over the longest finished prefix'. Payloads: seeded sixel payloads (20k quick / 2M thorough) must decode to width*height*4 bytes consistent with a declared raster.",
+         "Schedules: for k<=4 images in flight all k! completion orders x all 2^k poll placements x 14 geometry classes (6188 schedules) are executed with real threads held in the gate; every poll runs on a helper thread while every decoder it could wait for is held by the harness (not returning within 6 s = blocked); the log of what is on screen after each step is checked against 'fold arrivals in order over the longest finished prefix'. Payloads: seeded sixel payloads (20k quick / 2M thorough) must decode to width*height*4 bytes consistent with a declared raster. Three-parameter raster attributes are checked under either reading of the third parameter (height, as the engine reads it, or minimum width).",
          "Decode durations are not enumerated (order and poll placement determine the shared state). Images are identified by colour/position/size.", "DESIGN.md §4 C14"),
  "C15": ("write->parse differential on the real writers and parsers of the six text formats with a per-cell oracle (character, displayed colours / inverse video), violations shrunk over cells",
          "Buffers of width 80 (40 ATASCII), height 1..=40, printable CP437 minus lead-ins, all fg 0..=15 x bg 0..=7 attribute sequences, rows of every length incl. full width, 3 screen preparations: every cell up to the end of its row must come back.",
@@ -58,7 +58,7 @@ CHECKS = {
          "Histories of up to 40 insert/set/push/resize/get operations on palettes of 0..=300 colours are run on the real Palette and a reference vector; after every insert the stability conditions of the property are asserted. Palettes of 0..=256 colours with awkward title/author/description texts are exported and re-imported in every format. All 262144 six-bit colours and the ADF EGA codec are enumerated.",
          "Growing resize from fewer than 16 colours is not modelled.", "DESIGN.md §4 C16"),
  "C17": ("round-trip differential monitors on the real encoders/decoders (PSF2, raw, DCS through the real parser, XBin/ADF/IDF/IcyDraw embedding) with bit-exact glyph comparison, plus an independent TDF reference reader for the writer side",
-         "Every built-in font page 0..=42 and every SAUCE font through all 10 paths, and seeded fonts of every height 1..=32 with 256/512 glyphs of arbitrary bytes. TheDraw fonts of all three types, 0..=94 glyphs, bundles up to 34 fonts are written, read by an independent reader written from the file layout, and re-read by the engine.",
+         "Every built-in font page 0..=42 and every SAUCE font through all 10 paths, and seeded fonts of every height 1..=32 with 256/512 glyphs of arbitrary bytes. TheDraw fonts of all three types, 0..=94 glyphs, bundles up to 34 fonts are written, read by an independent reader written from the file layout, and re-read by the engine. The IcyDraw embedding also runs under empty, non-ASCII and long font names.",
          "Fonts are embedded under a non-default name. Raw data that starts with a PSF magic number is a known finding (format sniffing).", "DESIGN.md §4 C17"),
  "C18": ("exhaustive enumeration of the codec domains against round-trip oracles (runtime assertion monitor)",
          "Complete enumeration of the finite domain stated in the property (256 bytes x 3 modes, all expressible attribute tuples, 256 CP437 + 128 ATASCII codes, 63 typed characters x 5 converters), each executed on the real codecs under the panic monitor; exhaustive, so the verdict covers every input of the quantifier.",
